@@ -12,7 +12,9 @@ import (
 	"flag"
 	"fmt"
 	"os"
+	"os/exec"
 	"path/filepath"
+	"runtime"
 	"sort"
 	"strings"
 
@@ -33,11 +35,23 @@ type runner struct {
 	distinct vh.Distinct
 	nOps     int
 	nModel   int
+	ordinal  int
+	sigs     map[string]int
 }
 
+// fail records a failing design. At most five designs per signature and worker are
+// kept in full (all are counted), so that a new signature is never crowded out by the
+// many reproductions of the recorded ones.
 func (r *runner) fail(stream string, d *dg.Design, f Finding) {
-	r.res.Fail(f.Sig, f.What, map[string]any{"stream": stream, "design": d})
 	r.res.Count("failure_sig=" + f.Sig)
+	if r.sigs == nil {
+		r.sigs = map[string]int{}
+	}
+	r.sigs[f.Sig]++
+	if r.sigs[f.Sig] > 5 {
+		return
+	}
+	r.res.Failures = append(r.res.Failures, vh.Failure{Signature: f.Sig, What: f.What, Input: map[string]any{"stream": stream, "ordinal": r.ordinal, "design": d}})
 }
 
 // run evaluates one design. strict: witness stream (nothing filtered before comparing).
@@ -55,15 +69,49 @@ func (r *runner) run(stream string, d *dg.Design, strict bool) {
 	for k := range schemeTypes {
 		delete(schemeTypes, k)
 	}
-	g, err := generate()
+	g, stage, err := generate()
 	if err != nil {
-		r.res.Count("generator_error_" + stream)
-		r.fail(stream, d, Finding{"generator-error", "goa's generators fail on an accepted design: " + err.Error()})
+		if stage != "openapi" {
+			// the service / transport generators fail before any document is built: not this
+			// property's business (accepted designs that do not generate belong to C01)
+			r.res.Count("not_generated_" + stage + "_stage_" + stream)
+			return
+		}
+		r.res.Count("openapi_generator_error_" + stream)
+		sig := "openapi-generator-error"
+		if m := err.Error(); strings.Contains(m, "reflect.Set: value of type int is not assignable to type") && strings.Contains(m, "expr.(*Array).MakeSlice") {
+			sig += ":enum-int-literal-on-sized-int-array-element"
+		}
+		r.fail(stream, d, Finding{sig, "goa's OpenAPI generator fails on an accepted design: " + trunc(err.Error(), 300)})
 		return
 	}
 	r.res.Count("accepted_" + stream)
 	md := extractModel()
 	c := &ctx{md: md, counts: r.res.Dist}
+	// hypotheses of the partial theorems that goa itself is expected to enforce
+	for _, s := range md.Services {
+		for _, e := range s.Endpoints {
+			r.res.Count("endpoints")
+			if e.Multipart && !e.Body {
+				r.res.Count("hypothesis_multipart_has_body_violated")
+			}
+			all := map[string]bool{}
+			for _, rt := range e.Routes {
+				for _, p := range rt.Paths {
+					for _, m := range wildRe.FindAllStringSubmatch(p, -1) {
+						all[m[1]] = true
+					}
+				}
+			}
+			for _, rt := range e.Routes {
+				for _, p := range rt.Paths {
+					if len(wildRe.FindAllStringSubmatch(p, -1)) != len(all) {
+						r.res.Count("hypothesis_uniform_wildcards_violated")
+					}
+				}
+			}
+		}
+	}
 
 	// the rendered Mount functions and the service data list the same routes
 	mk := func(ops []Op) []string {
@@ -113,8 +161,9 @@ func (r *runner) run(stream string, d *dg.Design, strict bool) {
 		}
 		for _, e := range checkV3Extra(p.j) {
 			sig := "openapi3-invalid:" + strings.SplitN(e, ":", 2)[0]
-			if strings.HasPrefix(e, "security-scheme-undefined") && len(md.APIReqs) > 0 && hasFiles(md) {
-				sig += ":file-server-api-requirements"
+			if strings.HasPrefix(e, "security-scheme-undefined") && apiLevelKey(md, e[strings.LastIndex(e, " ")+1:]) {
+				// the API level requirement is written with the key of a scheme that has no location yet
+				sig += ":api-level-requirement"
 			}
 			c.fail(sig, "openapi3.json: "+e)
 		}
@@ -136,7 +185,7 @@ func (r *runner) run(stream string, d *dg.Design, strict bool) {
 	}
 	if p, ok := docs["openapi2"]; ok {
 		for _, e := range validateV2(p.j) {
-			c.fail("openapi2-invalid:"+strings.SplitN(e, ":", 2)[0], "openapi.json: "+e)
+			c.fail("openapi2-invalid:"+strings.SplitN(e, ": ", 2)[0], "openapi.json: "+e)
 		}
 		var pr []string
 		ops2, pr = docOps(p.j, true)
@@ -209,19 +258,27 @@ func (r *runner) run(stream string, d *dg.Design, strict bool) {
 		r.res.Count("not_sent_to_model:outside_tokenisation")
 		return
 	}
-	idx := len(r.cases)
+	idx := r.ordinal
 	r.cases = append(r.cases, caseInfo{idx, stream, d})
-	fmt.Fprintf(&r.lines, "(%d, %s, %s, %s, %s)\n", idx, dt, st, t3, t2)
+	fmt.Fprintf(&r.lines, "(%d%%nat, %s, %s, %s, %s)\n", idx, dt, st, t3, t2)
 	r.nModel++
 	if idx%37 == 3 {
 		r.res.Sample(map[string]any{"stream": stream, "model_design": md, "server_ops": g.ServerOps, "openapi3_ops": ops3}, 3)
 	}
 }
 
-func hasFiles(md *MDesign) bool {
-	for _, s := range md.Services {
-		if len(s.Files) > 0 {
-			return true
+// apiLevelKey: the key names a scheme of an API level requirement and carries no
+// parameter name yet (SchemeName_In_ with an empty name).
+func apiLevelKey(md *MDesign, key string) bool {
+	if !strings.HasSuffix(key, "_") {
+		return false
+	}
+	sn := schemeOf(key, md.Schemes)
+	for _, rq := range md.APIReqs {
+		for _, s := range rq {
+			if s == sn {
+				return true
+			}
 		}
 	}
 	return false
@@ -234,17 +291,113 @@ func trunc(s string, n int) string {
 	return s
 }
 
+type job struct {
+	stream string
+	d      *dg.Design
+	strict bool
+}
+
+// jobs walks every design of the run in order and calls f(ordinal, job) for the
+// ordinals selected by own (nil: all); the ordinal of a job is its case index. Designs
+// that are not selected are not built (one draw of the generator is skipped instead,
+// which is what Fork costs), so a worker only materialises its share.
+func jobs(seed uint64, n int, res *vh.Result, own func(int) bool, f func(int, job)) {
+	rng := vh.NewRNG(seed)
+	ord := 0
+	emit := func(mk func() job) {
+		if own == nil || own(ord) {
+			f(ord, mk())
+		}
+		ord++
+	}
+	for _, d := range coveringDesigns() {
+		d := d
+		emit(func() job { return job{"cover", d, false} })
+	}
+	opts := dg.DefaultOptions()
+	opts.ExoticVerbs = true
+	hand := witnessDesigns()
+	kept := func(i int) int { return len(coveringDesigns()) + n + len(hand) + i/10 } // ordinal of the unsanitised copy of random design i
+	var keep []struct {
+		ord int
+		d   *dg.Design
+	}
+	for i := 0; i < n; i++ {
+		mainOwn := own == nil || own(ord)
+		keepOwn := i%10 == 0 && (own == nil || own(kept(i)))
+		if !mainOwn && !keepOwn && res == nil {
+			rng.Next() // what rng.Fork() would have drawn
+			ord++
+			continue
+		}
+		d := dg.Random(rng.Fork(), opts, i)
+		if keepOwn {
+			keep = append(keep, struct {
+				ord int
+				d   *dg.Design
+			}{kept(i), d})
+		}
+		if mainOwn || res != nil {
+			sd, cnt := sanitize(d)
+			if i%3 == 1 {
+				sd = vary(sd, i/3)
+			}
+			if res != nil {
+				for k, v := range cnt {
+					res.Dist["sanitized_"+k] += v
+				}
+			}
+			if mainOwn {
+				f(ord, job{"main", sd, false})
+			}
+		}
+		ord++
+	}
+	// witness stream: the hand-written witnesses of the recorded findings, then one
+	// random design in ten exactly as generated
+	for _, d := range hand {
+		d := d
+		emit(func() job { return job{"witness", d, true} })
+	}
+	for _, k := range keep {
+		f(k.ord, job{"witness", k.d, true})
+	}
+}
+
+type shardOut struct {
+	Result   *vh.Result `json:"result"`
+	Distinct []string   `json:"distinct"`
+	Ops      int        `json:"ops"`
+	Model    int        `json:"model"`
+	Lines    string     `json:"lines"`
+}
+
 func main() {
 	seed := flag.Uint64("seed", 1, "")
 	tier := flag.String("tier", "quick", "")
 	out := flag.String("out", ".", "")
 	replay := flag.String("replay", "", "")
 	nflag := flag.Int("n", 0, "number of random designs (0: tier default)")
+	workers := flag.Int("workers", 0, "worker processes (0: number of CPUs - 2)")
+	worker := flag.Int("worker", -1, "internal: index of this worker")
 	flag.Parse()
-	rng := vh.NewRNG(*seed)
 	r := &runner{res: vh.NewResult(), distinct: vh.Distinct{}}
+	n := 800
+	if *tier == "thorough" {
+		n = 10000
+	}
+	if *nflag > 0 {
+		n = *nflag
+	}
+	if *workers <= 0 {
+		*workers = runtime.NumCPU() - 2
+		if *workers < 1 {
+			*workers = 1
+		}
+	}
 
-	if *replay != "" {
+	switch {
+	case *replay != "":
 		b, err := os.ReadFile(*replay)
 		if err != nil {
 			panic(err)
@@ -259,49 +412,89 @@ func main() {
 			fmt.Println("replay file has no design input")
 			os.Exit(2)
 		}
+		r.ordinal = 0
+		fixInts(rp.Input.Design)
 		r.run("replay", rp.Input.Design, rp.Input.Stream == "witness")
-	} else {
-		n := 400
-		if *tier == "thorough" {
-			n = 12000
+	case *worker >= 0:
+		// goa keeps the design in package level state: one design at a time per process
+		jobs(*seed, n, nil, func(i int) bool { return i%*workers == *worker }, func(i int, j job) {
+			r.ordinal = i
+			r.run(j.stream, j.d, j.strict)
+		})
+		so := shardOut{Result: r.res, Ops: r.nOps, Model: r.nModel, Lines: r.lines.String()}
+		for k := range r.distinct {
+			so.Distinct = append(so.Distinct, k)
 		}
-		if *nflag > 0 {
-			n = *nflag
+		for _, c := range r.cases {
+			r.res.Cases = append(r.res.Cases, c)
 		}
-		for _, d := range coveringDesigns() {
-			r.run("cover", d, false)
+		b, _ := json.Marshal(so)
+		if err := os.WriteFile(filepath.Join(*out, fmt.Sprintf("shard_%d.json", *worker)), b, 0o644); err != nil {
+			panic(err)
 		}
-		opts := dg.DefaultOptions()
-		opts.ExoticVerbs = true
-		var keep []*dg.Design
-		for i := 0; i < n; i++ {
-			d := dg.Random(rng.Fork(), opts, i)
-			if i%10 == 0 {
-				keep = append(keep, d)
+		return
+	default:
+		jobs(*seed, n, r.res, func(int) bool { return false }, func(int, job) {}) // sanitising counts
+		errs := make(chan error, *workers)
+		for w := 0; w < *workers; w++ {
+			go func(w int) {
+				cmd := exec.Command(os.Args[0], "-seed", fmt.Sprint(*seed), "-tier", *tier, "-out", *out, "-n", fmt.Sprint(n),
+					"-workers", fmt.Sprint(*workers), "-worker", fmt.Sprint(w))
+				cmd.Stderr = os.Stderr
+				errs <- cmd.Run()
+			}(w)
+		}
+		for w := 0; w < *workers; w++ {
+			if err := <-errs; err != nil {
+				fmt.Fprintln(os.Stderr, "worker failed:", err)
+				os.Exit(1)
 			}
-			sd, cnt := sanitize(d)
-			for k, v := range cnt {
-				r.res.Dist["sanitized_"+k] += v
+		}
+		var lines []string
+		for w := 0; w < *workers; w++ {
+			b, err := os.ReadFile(filepath.Join(*out, fmt.Sprintf("shard_%d.json", w)))
+			if err != nil {
+				panic(err)
 			}
-			r.run("main", sd, false)
+			var so shardOut
+			if err := json.Unmarshal(b, &so); err != nil {
+				panic(err)
+			}
+			os.Remove(filepath.Join(*out, fmt.Sprintf("shard_%d.json", w)))
+			for k, v := range so.Result.Dist {
+				r.res.Dist[k] += v
+			}
+			r.res.Failures = append(r.res.Failures, so.Result.Failures...)
+			r.res.Cases = append(r.res.Cases, so.Result.Cases...)
+			if w == 0 {
+				r.res.Samples = so.Result.Samples
+			}
+			for _, k := range so.Distinct {
+				r.distinct.Add(k)
+			}
+			r.nOps += so.Ops
+			r.nModel += so.Model
+			if so.Lines != "" {
+				lines = append(lines, strings.Split(strings.TrimSuffix(so.Lines, "\n"), "\n")...)
+			}
 		}
-		// witness stream: the hand-written witnesses of the recorded findings, then one
-		// random design in ten as generated (exclusive bounds, Bytes, API security
-		// next to file servers left in)
-		for _, d := range witnessDesigns() {
-			r.run("witness", d, true)
-		}
-		for _, d := range keep {
-			r.run("witness", d, true)
+		sort.Slice(lines, func(i, j int) bool { return caseIndex(lines[i]) < caseIndex(lines[j]) })
+		sort.SliceStable(r.res.Failures, func(i, j int) bool { return failOrdinal(r.res.Failures[i]) < failOrdinal(r.res.Failures[j]) })
+		r.lines.Reset()
+		for _, l := range lines {
+			r.lines.WriteString(l + "\n")
 		}
 	}
 
 	r.res.Evaluations = r.nOps
 	r.res.Distinct = len(r.distinct)
 	r.res.Extra["model_cases"] = r.nModel
-	r.res.Rule = "designs: 7 hand-written covering designs (all verbs, wildcards, absolute routes, base paths, every parameter location x required/optional/default, every body shape, tagged responses and errors, the four scheme kinds at API/service/method level, single-file servers), then designgen.Random(ExoticVerbs) designs sanitised into the partial hypotheses (exclusive bounds made inclusive, Bytes made String, file servers dropped under API-level security), then the witness designs and every tenth random design unsanitised; evaluations = operations mounted by the generated servers, each compared with both documents; distinct = distinct finalized HTTP descriptions (routes, parameters, bodies, responses, requirements) with at least one operation"
-	for _, c := range r.cases {
-		r.res.Cases = append(r.res.Cases, c)
+	r.res.Extra["random_designs"] = n
+	r.res.Rule = "designs: 7 hand-written covering designs (all verbs, wildcards, absolute routes, base paths, every parameter location x required/optional/default, every body shape, tagged responses and errors, the four scheme kinds at service/method level, single-file servers), then designgen.Random(ExoticVerbs) designs sanitised into the partial hypotheses (exclusive bounds made inclusive, Bytes made String, API level security pushed down to the services, scopes kept on OAuth2-only requirements, one credential in the Authorization header, map typed query parameters made arrays), then the witness designs and every tenth random design exactly as generated; evaluations = operations mounted by the generated servers, each compared with both documents; distinct = distinct finalized HTTP descriptions (routes, parameters, bodies, responses, requirements) with at least one operation"
+	if *worker < 0 && *replay != "" {
+		for _, c := range r.cases {
+			r.res.Cases = append(r.res.Cases, c)
+		}
 	}
 	if err := os.WriteFile(filepath.Join(*out, "cases_ops.txt"), []byte(r.lines.String()), 0o644); err != nil {
 		panic(err)
@@ -309,4 +502,19 @@ func main() {
 	if err := r.res.Write(filepath.Join(*out, "result.json")); err != nil {
 		panic(err)
 	}
+}
+
+func caseIndex(l string) int {
+	var i int
+	fmt.Sscanf(l, "(%d%%nat,", &i)
+	return i
+}
+
+func failOrdinal(f vh.Failure) int {
+	if m, ok := f.Input.(map[string]any); ok {
+		if o, ok := m["ordinal"].(float64); ok {
+			return int(o)
+		}
+	}
+	return 0
 }
